@@ -1,7 +1,7 @@
-import Hs.Model.Vx
+import Hs.Drv.Zinc
 namespace Hs.Drv.C10
 
-/-- requests `C10 <cmd> ...` (tokens after the property id) -/
-def handle (_ts : List String) : String := "bad-request"
+/-- requests `C10 <cmd> ...`: the shared Zinc requests (`enc`, `dec`, …) -/
+def handle (ts : List String) : String := Hs.Drv.Zinc.handle ts
 
 end Hs.Drv.C10
